@@ -194,7 +194,7 @@ example : (PV.cmap [(.cstr "a", .clist [.cbool true, .cts ⟨2009, 2, 13, 23, 31
     (.cint 7, .cdur (-1500000)), (.cuint 8, .none)]).celWF = true := by decide
 example : (PV.cmap [(.cbool true, .none), (.cint 1, .none)]).celWF = false := by decide
 /-- without `to_python`'s recursion into list items the same value would be written `[1]` -/
-example : jsonEnc (.clist [.cbool true]) = .ok (.arr [.int 1]) := by decide
+example : jsonEnc (.clist [.cbool true]) = .ok (.arr [.int 1]) := rfl
 
 example : String.ofList (tsStr ⟨2009, 2, 13, 23, 31, 30, 123456, 0⟩) = "2009-02-13T23:31:30Z" := by decide
 example : String.ofList (tsStr ⟨2009, 2, 13, 23, 31, 30, 0, -330⟩) = "2009-02-13T23:31:30-05:30" := by decide
